@@ -297,7 +297,8 @@ protected:
     bool pop_back(item_type& v
                   __TBB_FLOW_GRAPH_METAINFO_ARG(message_metainfo& metainfo))
     {
-        if (!my_item_valid(my_tail - 1)) {
+        // The last item may be the front one that is currently reserved: it stays until released or consumed
+        if (!my_item_valid(my_tail - 1) || element(my_tail - 1).state == reserved_item) {
             return false;
         }
         auto& e = element(my_tail - 1);
